@@ -539,15 +539,15 @@ pub fn run(run: &Run) {
     let len = run.tier.pick(80usize, 1500);
     let eop = prop_oneof![10 => cand().prop_map(EOp::Add), 2 => cand().prop_map(EOp::Query), 4 => any::<u16>().prop_map(EOp::Remove), 1 => prop_oneof![Just(0u32), 0u32..2000, Just(100_000u32)].prop_map(EOp::SetSize)];
     let ecase = (cfg_pick(), prop::collection::vec(eop, 1..len)).prop_map(|(cfg, ops)| ECase { cfg, ops });
-    run.prop("enforcer", run.tier.pick(2000, 40_000), sh, ecase, run_enforcer);
+    run.prop("enforcer", run.tier.pick(50000, 400000), sh, ecase, run_enforcer);
 
     let rend = prop_oneof![3 => Just(Render::SocketAddr), 1 => Just(Render::BareIp), 2 => Just(Render::LibraryDisplay)];
     let rop = prop_oneof![8 => (0u8..6, any::<u8>(), cand(), rend.clone()).prop_map(|(b, s, c, r)| ROp::Add(b, s, c, r)), 2 => any::<u16>().prop_map(ROp::Evict), 2 => any::<u16>().prop_map(ROp::Fail), 3 => (any::<u16>(), cand(), rend).prop_map(|(i, c, r)| ROp::ReAdd(i, c, r))];
     let rcase = prop::collection::vec(rop, 1..run.tier.pick(60usize, 400)).prop_map(|ops| RCase { ops });
-    run.prop("routing", run.tier.pick(500, 8000), sh, rcase, run_routing);
+    run.prop("routing", run.tier.pick(12500, 80000), sh, rcase, run_routing);
 
     let bcase = (cfg_pick(), prop::collection::vec(cand(), 1..run.tier.pick(30usize, 120))).prop_map(|(cfg, peers)| BCase { cfg, peers });
-    run.prop("bootstrap", run.tier.pick(150, 1500), sh, bcase, run_bootstrap);
+    run.prop("bootstrap", run.tier.pick(3750, 15000), sh, bcase, run_bootstrap);
 }
 
 pub fn replay(run: &Run, sub: &str, case: &Value) -> Option<bool> {
